@@ -97,6 +97,9 @@ func c06BlockStores(t *testing.T) map[string]func() (blockstore.Blockstore, erro
 	}
 	t.Cleanup(func() { _ = os.RemoveAll(dir) })
 	mkStore := func(name string) (*store.Store, error) {
+		if err := os.MkdirAll(filepath.Join(dir, name), 0o755); err != nil {
+			return nil, err
+		}
 		return store.NewStore(store.DefaultParameters(), filepath.Join(dir, name))
 	}
 	plain, err := mkStore("plain")
